@@ -28,7 +28,7 @@ class LogCatcher(logging.Handler):
 
 
 class Harness:
-    def __init__(self, addons=(), n_regions=1, swallow=True, with_logger=True):
+    def __init__(self, addons=(), n_regions=1, swallow=True, with_logger=True, same_ip=False):
         from hippolyzer.lib.base.datatypes import UUID
         from hippolyzer.lib.base.message.udpserializer import UDPMessageSerializer
         from hippolyzer.lib.proxy.addons import AddonManager
@@ -38,7 +38,8 @@ class Harness:
         self.loop = asyncio.new_event_loop()
         asyncio.set_event_loop(self.loop)
         self.client_addr = ("127.0.0.1", 1)
-        self.region_addrs = [("10.0.0.%d" % (i + 1), 13000 + i) for i in range(n_regions)]
+        # same_ip: the simulators share the viewer's IP (local grid / test topology): only the port tells them apart
+        self.region_addrs = [(("127.0.0.1" if same_ip else "10.0.0.%d" % (i + 1)), 13000 + i) for i in range(n_regions)]
         self.session_manager = SessionManager(ProxySettings())
         self.session_manager.settings.USE_VIEWER_OBJECT_CACHE = False
         self.logged = []
